@@ -215,7 +215,8 @@ def su2_cases(ctx, rnd, n):
         b1, b2 = abs(b1), abs(b2)
         om = rnd.uniform(0.1, 1.5)
         R = lambda a, b, g: SU2M.Rotation_z(T(a)) * SU2M.Rotation_y(T(b)) * SU2M.Rotation_z(T(g))
-        kind = k % 8
+        # two thirds generic (rotation, r1 r2^-1, r1 b b^-1 r2: these reach the second sheet of SU(2)), one third end-point products
+        kind = (k % 3) if k < (2 * n) // 3 else 3 + (k % 5)
         atol = 1e-9
         if kind == 0:
             X = R(a1, b1, g1)
@@ -294,7 +295,7 @@ def run(ctx):
     cases += gather_cases(ctx, rnd, 15 if quick else 150)
     cases += cg_cases(ctx, rnd, ctx.tier)
     ctx.log("cg", len(cases))
-    cases += su2_cases(ctx, rnd, 16 if quick else 80)
+    cases += su2_cases(ctx, rnd, 30 if quick else 120)
     ctx.log("all", len(cases))
     for c in cases[:: max(1, len(cases) // 5)]:
         ctx.sample({"case": c[0], "goal": c[1][:300], "meta": {k: (v if k != "items" else "...") for k, v in c[3].items()}})
